@@ -268,6 +268,7 @@ def run(rep: Report) -> None:
     rep.rule("R01.2", "every floor division that flows into a constructor in Dimension.root / Prefix.root / Unit.root "
              "is dominated by a raising exactness test over the same elements", floor=3)
     rep.rule("R01.3", "no module other than measured/__init__.py constructs a Unit with an explicit dimension")
+    rep.rule("R01.8", "re-constructing an interned object leaves its value fields alone: __init__ assigns them only for a fresh instance", floor=3)
     rep.rule("R01.7", "the dimension a serialised unit is rebuilt with is decoded from the encoded exponents on every path "
              "(Unit.__from_json__ passes it to the interning constructor unchecked)", floor=2)
     rep.rule("R01.4", "Unit.__new__ returns the interned object for a known key (first construction fixes the dimension)", armed=False)
@@ -322,6 +323,28 @@ def run(rep: Report) -> None:
     # R01.7: the decoded dimension that Unit.__from_json__ passes on is the encoded one
     from .c15 import structural_decoding
     structural_decoding(rep, prog, "R01.7")
+    # R01.8: constructing an already interned unit again must not touch it
+    from ..cfg import CFG
+    from .c19 import _initialized_decider
+    for cls_ in ("Unit", "Dimension", "Prefix"):
+        ifi = prog.func(f"{cls_}.__init__")
+        pruned = CFG(ifi.node).pruned(_initialized_decider(True))
+        live = pruned.reachable(pruned.entry)
+        bad = []
+        for nid in live:
+            nd = pruned.nodes[nid]
+            if nd.kind != "stmt" or nd.ast is None:
+                continue
+            tgs = nd.ast.targets if isinstance(nd.ast, ast.Assign) else ([nd.ast.target] if isinstance(nd.ast, (ast.AugAssign, ast.AnnAssign)) else [])
+            for t in tgs:
+                for x in (t.elts if isinstance(t, (ast.Tuple, ast.List)) else [t]):
+                    if isinstance(x, ast.Attribute) and isinstance(x.value, ast.Name) and x.value.id == ifi.params()[0] \
+                            and x.attr in ("dimension", "factors", "prefix", "exponents", "base", "exponent"):
+                        bad.append((nd.ast, x.attr))
+        rep.check("R01.8", f"{cls_}.__init__:initialised-path", not bad,
+                  f"{cls_}.__init__ assigns self.{bad[0][1] if bad else ''} (`{ast.unparse(bad[0][0])[:50] if bad else ''}`) also for an instance that is already "
+                  f"interned and initialised: every later {cls_}(...) call for the same key overwrites the live singleton with the caller's argument "
+                  "(a unit's dimension is not part of its key)", ifi.where(bad[0][0] if bad else None))
     # R01.2
     for q in ("Dimension.root", "Prefix.root", "Unit.root"):
         check_root_guard(rep, prog, resolver, q)
